@@ -3,7 +3,7 @@
 set -u
 ID=$1; SRC=$2
 export GOFLAGS=-mod=mod GOPROXY=off GOSUMDB=off GOTOOLCHAIN=local
-WT=/tmp/vseed-$ID
+WT=/tmp/vseed-$(echo $ID | tr -c "A-Za-z0-9\n" "_")
 git -C /repo worktree remove --force $WT >/dev/null 2>&1
 git -C /repo worktree add -q --detach $WT HEAD || exit 9
 cd $WT
